@@ -175,7 +175,7 @@ def finish(prop, results, not_run, opts, meta, t0, tier, seed):
             samples.append(s)
         for v in r.get("violations", []):
             rp = v.get("replay") or {}
-            reproduced = bool(rp.get("failed")) or (rp.get("raised") is not None and rp.get("raised_origin") == "repo")
+            reproduced = (v["label"] in (rp.get("failed") or [])) or (rp.get("raised") is not None and rp.get("raised_origin") == "repo")
             if rp.get("assumption_broken"):
                 reproduced = False
             item = {"scenario": key, "harness": r["harness"], "desc": r["desc"], "label": v["label"],
